@@ -238,11 +238,71 @@ Section Model.
 
   Definition kind_plain (k : kind) : bool := match k with KH1 | KUndef => true | _ => false end.
 
+  (* ---------------------------------------------------------------- function-free sub-expressions *)
+  (* a function-free, operator-free scalar as TerminalExpr on the MAPPED domain sees it (coordinates x, y, z) *)
+  Fixpoint phys_sc (e : lx) {struct e} : option texpr :=
+    match e with
+    | LNum p q => Some (lnum p q)
+    | LConst n => Some (TAt (AConst n))
+    | LCoord i => if Nat.ltb i d then Some (TAt (ACoord false i)) else None
+    | LAdd l =>
+        (fix go (l : list lx) : option texpr :=
+           match l with
+           | [] => None
+           | [x] => phys_sc x
+           | x :: r => match phys_sc x, go r with Some a, Some b => Some (TAdd a b) | _, _ => None end
+           end) l
+    | LMul l =>
+        (fix go (l : list lx) : option texpr :=
+           match l with
+           | [] => None
+           | [x] => phys_sc x
+           | x :: r => match phys_sc x, go r with Some a, Some b => Some (TMul a b) | _, _ => None end
+           end) l
+    | LPow b x => match phys_sc b, phys_sc x with Some tb, Some tx => Some (tpow tb tx) | _, _ => None end
+    | LFn f a => option_map (TFn f) (phys_sc a)
+    | _ => None
+    end.
+
+  (* x, y, z -> M[0], M[1], M[2] *)
+  Fixpoint csubst (t : texpr) : texpr :=
+    match t with
+    | TAt (ACoord false i) => if Nat.ltb i d then Mc i else t
+    | TZ _ | TQ _ _ | TAt _ => t
+    | TAdd a b => TAdd (csubst a) (csubst b)
+    | TSub a b => TSub (csubst a) (csubst b)
+    | TMul a b => TMul (csubst a) (csubst b)
+    | TDiv a b => TDiv (csubst a) (csubst b)
+    | TOpp a => TOpp (csubst a)
+    | TInv a => TInv (csubst a)
+    | TPowN a n => TPowN (csubst a) n
+    | TFn f a => TFn f (csubst a)
+    | TPowG b e => TPowG (csubst b) (csubst e)
+    end.
+
   (* ---------------------------------------------------------------- LogicalExpr.eval, then TerminalExpr *)
   Fixpoint logical (e : lx) {struct e} : option tensor :=
-    (* arm 1: no function inside.  With a DiffOperator the code returns an unevaluated LogicalExpr (not
-       modelled); otherwise it substitutes x,y,z by M[0],M[1],M[2]: the recursion below does the same. *)
-    if negb (has_fn e) && has_op e then None else
+    (* arm 1: no function inside.  Without a DiffOperator the code substitutes x,y,z by M[0],M[1],M[2] (the
+       recursion below does the same).  With a DiffOperator it returns an unevaluated LogicalExpr; TerminalExpr
+       then lowers the expression on the MAPPED domain (classical derivatives in x, y, z, computed by sympy.diff)
+       and LogicalExpr substitutes the coordinates: modelled for grad / laplace of an operator-free scalar (what
+       the product rules of the constructors produce from coordinate-dependent coefficients). *)
+    if negb (has_fn e) && has_op e then
+      match e with
+      | LGrad a =>
+          match phys_sc a with
+          | Some pa => option_map (fun l => Vec (map csubst l)) (sequence (map (fun i => tD false i pa) (seq0 d)))
+          | None => None
+          end
+      | LLaplace a =>
+          match phys_sc a with
+          | Some pa => option_map (fun l => Sc (csubst (Classical.tsum l)))
+                         (sequence (map (fun i => dd2 false i i pa) (seq0 d)))
+          | None => None
+          end
+      | _ => None
+      end
+    else
     match e with
     | LNum p q => Some (Sc (lnum p q))
     | LConst n => Some (Sc (TAt (AConst n)))
